@@ -1175,7 +1175,7 @@ func main() {
 	for i, c := range corpus() {
 		emit(c, gen.Fork(f.Seed^0x5eed, i), -1-i)
 	}
-	n := f.Count(300, 6000)
+	n := f.Count(300, 9000)
 	for i := 0; i < n; i++ {
 		r := gen.Fork(f.Seed, i)
 		emit(genCase(r), r, i)
